@@ -19,8 +19,10 @@ import GoagModel.Props.C06b
   For allOf this is the "members are merged into one object" clause: one JSON object whose member
   names are exactly the members' declared names, each member's required properties present.
 
-  Outside the fragment (allOf members with additionalProperties — see KF-C06-embeddedAddl —, oneOf,
-  untyped values) conformance is judged per generated type by the same reference, not proved.
+  `toJ_conforms_oneOf` lifts this to a oneOf whose chosen alternative lies in the fragment.
+
+  Outside the fragment (allOf members with additionalProperties — see KF-C06-embeddedAddl —, untyped
+  values, nesting below a oneOf) conformance is judged per generated type by the same reference.
 -/
 namespace Goag.JsonM
 
@@ -656,6 +658,48 @@ theorem toJ_null_only_if_nullable (s : Schema) (v : Val)
     | nilarr => simp [wf] at h
     | alt _ _ => simp [wf] at h
   | oneOf alts d => cases v <;> simp [wf] at h
+
+
+/-! ### oneOf: the written alternative conforms, hence the composition does -/
+
+theorem anyAlt_of_get (alts : List (List String × Schema)) (i : Nat) (vals : List String) (s : Schema) (j : J)
+    (h : alts[i]? = some (vals, s)) (hc : conforms s j = true) : anyAlt alts j = true := by
+  induction alts generalizing i with
+  | nil => simp at h
+  | cons a rest ih =>
+    obtain ⟨va, sa⟩ := a
+    cases i with
+    | zero =>
+      simp only [List.getElem?_cons_zero, Option.some.injEq, Prod.mk.injEq] at h
+      simp [anyAlt, h.2, hc]
+    | succ k =>
+      simp only [List.getElem?_cons_succ] at h
+      simp [anyAlt, ih k h]
+
+theorem toJAlt_at (alts : List (List String × Schema)) (i : Nat) (vals : List String) (s : Schema) (v : Val)
+    (h : alts[i]? = some (vals, s)) : toJAlt alts i v = toJ s v := by
+  induction alts generalizing i with
+  | nil => simp at h
+  | cons a rest ih =>
+    obtain ⟨va, sa⟩ := a
+    cases i with
+    | zero =>
+      simp only [List.getElem?_cons_zero, Option.some.injEq, Prod.mk.injEq] at h
+      simp [toJAlt, h.2]
+    | succ k =>
+      simp only [List.getElem?_cons_succ] at h
+      simp only [toJAlt]
+      exact ih k h
+
+/-- **C07, oneOf**: a value holding the `i`-th alternative is written as that alternative's encoding,
+    which conforms to the alternative (tree theorem), so the document conforms to the oneOf -/
+theorem toJ_conforms_oneOf (alts : List (List String × Schema)) (d : Option String) (i : Nat) (vals : List String)
+    (s : Schema) (inner : Val) (j : J) (hi : alts[i]? = some (vals, s)) (hw : wf s inner = true)
+    (hj : toJ (.oneOf alts d) (.alt i inner) = .ok j) : conforms (.oneOf alts d) j = true := by
+  simp only [toJ] at hj
+  rw [toJAlt_at alts i vals s inner hi] at hj
+  simp only [conforms]
+  exact anyAlt_of_get alts i vals s j hi (toJ_conforms s inner j hw hj)
 
 /-- non-vacuity: nested object, unset optional array, set map with a null value -/
 def exSchemaC : Schema :=
